@@ -293,5 +293,5 @@ def check(ctx):
     # skips before and after a rank's share are the split formulas (shared with C16)
     share(ctx, 'C16', 'R6/C16.', ['R1.', 'R2.'])
     # the per-call usage the MPI drivers skip with is the documented amount (shared with C04)
-    share(ctx, 'C04', 'R7/C04.', ['R2.usage'])
+    share(ctx, 'C04', 'R7/C04.', ['R2.usage', 'R1.generator_sequence'])
 
